@@ -1,7 +1,45 @@
 """C10 — bulk memory operations never straddle or leave the sandbox."""
+import os
+from harness import vlib, m3_ast, m3_ptr
 from harness.props.ptrcommon import *
 PROP = "C10"
-COQ_FILES = ["Machine.v", "Ptr.v", "Ptr_proofs.v", "Bulk.v", "Bulk_proofs.v"]
+COQ_FILES = ["Machine.v", "Ptr.v", "Ptr_proofs.v", "Bulk.v", "Bulk_proofs.v", "PtrAst.v"]
+M3 = {}
+
+
+def pre_generate(ctx):
+    """M3 for the range check: clang's AST of the instantiated detail::check_range_doesnt_cross_app_sbx_boundary is translated
+    into a check-only program of coq/PtrAst.v; the kernel proves it equal to Ptr.check_range for EVERY region list, start, size"""
+    M3.clear()
+    try:
+        prog = m3_ptr.translate_range(vlib.INCLUDE, ctx.build)
+    except m3_ast.Unknown as ex:
+        M3["untranslated"] = str(ex)
+        return
+    text = m3_ptr.emit_range(prog)
+    lock = vlib.coq_lock()
+    try:
+        with open(os.path.join(vlib.COQ, "Gen_RangeProgram.v"), "w") as f:
+            f.write(text)
+        rc, out = vlib.sh(["timeout", "300", "coqc", "-Q", ".", "RLBoxV", "Gen_RangeProgram.v"], cwd=vlib.COQ, timeout=400)
+    finally:
+        lock.close()
+    M3["program"] = [l for l in text.splitlines() if l.startswith("Definition")][0]
+    M3["failed"] = None if rc == 0 else out[-1500:]
+
+
+def extra_checks(ctx, exes):
+    if "untranslated" in M3:
+        ctx.coverage["m3_range_status"] = "NOT TRANSLATED this run (tie falls back to the differential correspondence): " + M3["untranslated"]
+        print("NOTE C10: range-check AST not translated (%s); tie = differential correspondence only" % M3["untranslated"][:160])
+        return
+    ctx.coverage["obligations"] = ctx.coverage.get("obligations", 0) + 1
+    ctx.coverage["discharged"] = ctx.coverage.get("discharged", 0) + (0 if M3["failed"] else 1)
+    ctx.coverage["m3_range_status"] = "translated"
+    ctx.coverage["m3_range_program"] = M3["program"]
+    if M3["failed"]:
+        ctx.violations.append({"kind": "broken-proof", "case": "Gen_RangeProgram: rprog_check_range_ok", "impl": M3["program"], "model": M3["failed"], "spec": "", "class": "m3",
+                               "what": "the program translated from the AST of check_range_doesnt_cross_app_sbx_boundary is no longer provably equal to Ptr.check_range for all inputs"})
 DRIVERS = drivers("BULK", ["memset", "memcpy", "memcmp", "vrange", "usp", "deny", "grant"])
 M64 = 1 << 64
 
@@ -110,6 +148,7 @@ RULE = ("verif16 and verif32, two live sandboxes + an application buffer at fixe
         "2^16+-1, 2^31, 2^32+-1, 2^63, 2^64-8, 2^64-1, values wrapping back to the start, random} as plain/tainted operands of six integer kinds incl. "
         "negative values; memcpy/memcmp sources in app memory, other sandbox, same sandbox, null; element-counted variants x 5 element sizes x counts incl. "
         "2^61+1, 2^62+1, 2^64/size+-1. Writes observed by byte-diff of the observed windows (whole region on verif16).")
-TRUSTED = ["models coq/Bulk.v and coq/Ptr.v check_range hand-written; tied by differential correspondence"]
+TRUSTED = ["models coq/Bulk.v and coq/Ptr.v check_range hand-written; tied by differential correspondence",
+           "M3 (range check): harness/m3_ptr.py translate_range from clang 14's JSON AST; pointer<->integer casts are the identity (64-bit host); is_in_same_sandbox is Ptr.same_sbx (tied by the vrange/memset cases)"]
 ASSUMPTIONS = ["application-side ranges do not wrap the address space (p + n <= 2^64) — proved unnecessary for sandbox-side ranges",
                "all live sandboxes of one back-end type have the same total memory (uniform)"]
